@@ -115,7 +115,7 @@ def wcfg(rng, lx, ly):
     if rng.random() < 0.5:
         cfg['shift_origin'] = (round(rng.uniform(0.1, lx / 2), 3), round(rng.uniform(0.1, ly / 2), 3))
     cfg['samplesize'] = (lx, ly)
-    cfg['output_digits'] = 6
+    cfg['output_digits'] = rng.choice([6, 6, 6, 4, 3])
     return cfg
 
 
@@ -166,7 +166,7 @@ def build_case(rng):
     cfg = wcfg(rng, lx, ly)
     return {'lx': lx, 'ly': ly, 'kind': kind, 'layout': layout, 'sites': [list(s) for s in sites], 'zs': zs, 'cfg': cfg,
             'qseed': rng.randrange(1 << 30), 'dt': rng.choice(['f32', 'f32', 'f64', 'list']), 'refit': rng.random() < 0.3,
-            'fmt': rng.choice(['repr', 'repr', 'e', 'f'])}, f
+            'fmt': rng.choice(['repr', 'repr', 'e', 'f']), 'fine_run': rng.random() < 0.35}, f
 
 
 def queries(case):
@@ -178,6 +178,11 @@ def queries(case):
     x0, x1, y0, y1 = min(sx), max(sx), min(sy), max(sy)
     n = r.randint(3, 12)
     pts = [[gcommon.f32(r.uniform(x0, x1)), gcommon.f32(r.uniform(y0, y1)), gcommon.f32(r.uniform(-0.5, 0.2))] for _ in range(n)]
+    if case.get('fine_run'):
+        # a slowly written, finely sampled run: 400 points 0.75 um apart (below a 3- or 4-digit print resolution), across the
+        # slope of the surface; every one of them must get the surface value at its own position
+        xs_, ys_ = x0 + 0.3 * (x1 - x0), y0 + 0.4 * (y1 - y0)
+        pts += [[gcommon.f32(xs_ + 0.0006 * t), gcommon.f32(ys_ + 0.00045 * t), gcommon.f32(-0.1)] for t in range(400)]
     # a waveguide-like line through the sample
     yl = r.uniform(y0, y1)
     pts += [[gcommon.f32(x0 + (x1 - x0) * t / 7), gcommon.f32(yl), gcommon.f32(-0.035)] for t in range(8)]
@@ -314,7 +319,7 @@ def check_case(ctx, case, f=None, collect=None):
         got = [tuple(float(gcommon.fr(v)) for v in e['dst']) for e in g.get('events', []) if e['t'] == 'm']
         exp = m_btw['out'][-8:]
         if len(got) == len(exp):
-            cmp('gcode', got, exp, bpts[-8:], 'coordinates written by write()', t=tol + fractions.Fraction(2, 10 ** 6))
+            cmp('gcode', got, exp, bpts[-8:], 'coordinates written by write()', t=tol + fractions.Fraction(2, 10 ** 6) + fractions.Fraction(1, 10 ** int(cfg['output_digits'])))
         else:
             ctx.fail('corr', 'gcode', info, f'{len(got)} moves written for 8 distinct points', 'gcode:count')
         # the interpolant: correspondence with the independent solve, and quality against the analytic surface
